@@ -479,6 +479,18 @@ func init() {
 		}
 		return StrV{s: "addr:" + string(b)}
 	})
+	reg("verif_AddrSym", func(p *Path, fn *ssa.Function, a []Value) Value {
+		ts := p.newInput(p.strArg(a[0]), "bytes", SBV, 8, 20)
+		bs := []*Term{}
+		for _, c := range "addr:" {
+			bs = append(bs, mkInt64(int64(c)))
+		}
+		return mkStr(append(bs, ts...))
+	})
+	reg("verif_Digits", func(p *Path, fn *ssa.Function, a []Value) Value {
+		n := p.concreteInt(a[1], "verif_Digits n")
+		return mkStr(p.newInput(p.strArg(a[0]), "bytes", SBV, 8, n))
+	})
 	fromBech := func(p *Path, fn *ssa.Function, a []Value) Value {
 		s := a[0].(StrV)
 		n := strLen(s)
